@@ -705,6 +705,10 @@ func (k *KDC) handleTGS(req *krbmsg.KDCReq) []byte {
 		}
 	}
 	end = end.Truncate(time.Second)
+	if !end.After(start) {
+		// RFC 4120 3.3.3 / 3.1.3: a ticket that could never be used is not issued
+		return k.errReply(11, req, nil) // KDC_ERR_NEVER_VALID
+	}
 	renew := etp.RenewTill
 	if renew == nil {
 		flags &^= FlagRenewable
@@ -730,6 +734,42 @@ func (k *KDC) handleTGS(req *krbmsg.KDCReq) []byte {
 		AuthTime: etp.AuthTime, Start: start, End: end, RenewTill: renew, Flags: flags, Renewal: renewal, At: now, Nonce: b.Nonce})
 	k.Requests[len(k.Requests)-1].ReplyKind = "TGS-REP"
 	return out
+}
+
+// IssueDirect issues a ticket for cname to sname without a request (what a credential cache written earlier by
+// another program holds) and enters it in the issue log. renew <= 0: not renewable.
+func (k *KDC) IssueDirect(cname, sname []string, life, renew time.Duration, flags uint32) *Issued {
+	var skey Key
+	switch {
+	case len(sname) == 2 && sname[0] == "krbtgt" && sname[1] == k.Realm:
+		skey = k.TGSKey
+	case len(sname) == 2 && sname[0] == "krbtgt":
+		skey = k.CrossOut[sname[1]]
+	default:
+		p := k.Principals[pkey(sname, k.Realm)]
+		if p == nil || len(p.Keys) == 0 {
+			return nil
+		}
+		skey = p.Keys[0]
+	}
+	now := k.Now().UTC()
+	start := now.Truncate(time.Second)
+	end := start.Add(life)
+	var rt *time.Time
+	flags &^= FlagRenewable
+	if renew > 0 {
+		t := start.Add(renew)
+		rt = &t
+		flags |= FlagRenewable
+	}
+	sess := k.RandKey(skey.Etype)
+	etp := krbmsg.EncTicketPart{Flags: flags, Key: krbmsg.EncryptionKey{Type: skey.Etype, Value: sess}, CRealm: k.Realm, CName: krbmsg.PrincipalName{Type: 1, Names: cname},
+		Transited: krbmsg.Transited{Type: 1, Contents: []byte{}}, AuthTime: start, StartTime: &start, EndTime: end, RenewTill: rt}
+	ct, _ := rcrypto.EncryptWithConfounder(skey.Etype, skey.Value, 2, k.conf(skey.Etype), etp.Encode())
+	tkt := krbmsg.Ticket{VNO: 5, Realm: k.Realm, SName: krbmsg.PrincipalName{Type: 2, Names: sname}, Enc: krbmsg.EncryptedData{EType: skey.Etype, KVNO: krbmsg.I64(skey.KVNO), Cipher: ct}}
+	k.Issued = append(k.Issued, Issued{Exchange: "DIRECT", Client: pkey(cname, k.Realm), SName: sname, TktRealm: k.Realm, SessionKey: sess, KeyEtype: skey.Etype, Ticket: tkt.Encode(),
+		AuthTime: start, Start: start, End: end, RenewTill: rt, Flags: flags, At: now})
+	return &k.Issued[len(k.Issued)-1]
 }
 
 func (k *KDC) referralFor(sname []string) string {
